@@ -293,6 +293,7 @@ void WorldQ::on_command(const SpawnCmd &c0) {
     if (r->k_reports > 0 && judge && !had_crash && !had_proc_crash) violate("C04.delivered-twice", m->id + " recipient " + r->addr + " already reported delivered (K) is attempted again although nothing crashed");
     if (r->marked && judge) violate("C04.finished-recipient-retried", m->id + " recipient " + r->addr + " was attempted again after its completion mark was written");
   }
+  c10_check_command(c, m);
   r->outstanding = c.delnum; r->cmds++; r->cmds_since_boot++; r->last_verdict = 0; r->last_cmd_t = k->clock;
   // expected sender on the wire (VERP expansion is C10's business; here only the plain case is compared)
   k->probe("delivery_command");
@@ -335,6 +336,7 @@ void WorldQ::preprocess_done(GMsg *m) {
     // and the channel files must be durable
     for (Inode *x : {l, r, f}) if (x && x->synced != x->data) violate("C03.preprocessed-files-not-synced", m->id + ": info/local/remote not fsynced when todo/" + std::to_string(m->num) + " is removed");
   }
+  c10_check_preprocessed(m);
   if (tg) tg->on_preprocessed(m);
 }
 
@@ -342,12 +344,13 @@ void WorldQ::on_send_event(const Event &e) {
   Proc *p = e.proc;
   if (e.call == C_EXEC || e.call == C_SPAWN) {
     if (p->tag == "second") return;
-    send_pid = e.pid; send_incarnation++; send_exiting = false; send_term_seen = false;
+    send_pid = e.pid; send_incarnation++; send_exiting = false; send_term_seen = false; rc_valid = false; rc_reading = false;
     for (int c = 0; c < 2; c++) { delnum_used[c].clear(); outstanding_count[c] = 0; cmdbuf[c].clear(); }
     for (auto &pr : bynum) for (auto &r : pr.second->rc) { r.outstanding = -1; r.cmds_since_boot = 0; }
     return;
   }
   if (p->tag == "second") return;
+  c10_on_send_event(e);
   std::string dir; uint64_t n;
   switch (e.call) {
     case C_SIGNAL:
